@@ -4,6 +4,7 @@ CONSTANTS
   OpSeqs <- Seqs2
   MaxFail = 0
   JoinRace = FALSE
+  CallLock = TRUE
   Symmetric = TRUE
 INVARIANT OneLaunchPerEpoch
 INVARIANT OneLaunchEver
@@ -11,6 +12,7 @@ INVARIANT NoHandshakeException
 INVARIANT NoExceptionWithoutClose
 INVARIANT PrepareNeverRaises
 INVARIANT Answered
+INVARIANT OwnReply
 INVARIANT LockSane
 INVARIANT StarterOwnsPt
 INVARIANT NoDeadlock
